@@ -55,7 +55,44 @@ def run_miri(ctx, mode, seeds):
     return fails, runs
 
 
+def send_probes(ctx):
+    """the hand-over clause as the compiler sees it: for every minimum alignment, an idle arena may be moved into another
+    thread, used and dropped there (`Bump<M>: Send`), and may not be shared by reference (`Bump<M>: !Sync`).  Returns
+    (oracle fails, number of programs compiled) or (None, error text) when the crate itself does not build."""
+    from families import borrow as B
+    rlib, deps = B.build_rlib(ctx)
+    if rlib is None:
+        return None, deps
+    wd = os.path.join(ctx.workdir, "send_probes")
+    os.makedirs(wd, exist_ok=True)
+    progs = []
+    for al in (1, 2, 4, 8, 16):
+        progs.append((f"move{al}", True, B.PRELUDE + f"pub fn probe() {{\n    let b: Bump<{al}> = Bump::with_min_align();\n    touch(b.alloc(1u32));\n"
+                      f"    let t = std::thread::spawn(move || {{ let mut b = b; touch(b.alloc(2u64)); b.reset(); drop(b); }});\n    t.join().unwrap();\n}}\n"))
+        progs.append((f"send{al}", True, B.PRELUDE + f"fn req<T: Send>() {{}}\npub fn probe() {{ req::<Bump<{al}>>(); }}\n"))
+        progs.append((f"sync{al}", False, B.PRELUDE + f"fn req<T: Sync>() {{}}\npub fn probe() {{ req::<Bump<{al}>>(); }}\n"))
+        progs.append((f"share{al}", False, B.PRELUDE + f"pub fn probe() {{\n    let b: Bump<{al}> = Bump::with_min_align();\n    std::thread::scope(|s| {{\n        s.spawn(|| {{ touch(b.alloc(1u32)); }});\n        touch(b.alloc(2u32));\n    }});\n}}\n"))
+    fails = []
+    for name, accept, rust in progs:
+        path = os.path.join(wd, name + ".rs")
+        open(path, "w").write(rust)
+        ok, codes, txt, cmd = B.compile_one((path, rlib, deps))
+        if ok != accept:
+            what = "idle-arena-cannot-be-moved-to-another-thread" if accept else "arena-shareable-between-threads"
+            fails.append({"prop": "C20", "name": what, "plan": None, "op": None, "trace": None,
+                          "detail": f"program {name}: rustc {'accepts' if ok else 'rejects ' + '+'.join(codes)}; " + txt.strip().split("\n")[0][:200],
+                          "plan_text": f"SENDPROBE {name}\n# {cmd}\n" + "".join("# " + l + "\n" for l in rust.split("\n"))})
+    return fails, len(progs)
+
+
 def run(ctx, mult=1, seed_shift=0, corpus=True):
+    sp, nsp = send_probes(ctx)
+    if sp is None:
+        return {"infra_error": "the crate does not build: " + nsp[-800:], "oracle_fails": [], "diffs": []}
+    if sp:
+        # the harness itself moves arenas between threads and cannot be built against such a crate: the programs are the input
+        return {"oracle_fails": sp, "diffs": [], "evaluations": nsp, "traces": 0, "distinct_nontrivial": nsp, "histogram": {"send-probe-programs": nsp},
+                "samples": [], "rule": "hand-over programs compiled against the crate", "results": [], "extra": {}}
     bvh, err = common.build_harness(ctx)
     if bvh is None:
         return {"infra_error": "harness does not build against /repo: " + err[-800:], "oracle_fails": [], "diffs": []}
@@ -89,6 +126,7 @@ def run(ctx, mult=1, seed_shift=0, corpus=True):
     f2, r2 = run_miri(ctx, "zst", [base % 1000])
     ctx.log(f"miri runs in {time.time() - t:.1f}s: {r1 + r2}")
     out["oracle_fails"] += f1 + f2
+    out["extra"]["send_probe_programs"] = nsp
     out["extra"]["miri_runs"] = r1 + r2
     out["rule"] += "; plus Miri executions of harness_miri (modes plain, zst) counted in extra.miri_runs"
     return out
@@ -107,4 +145,17 @@ def search(ctx, run_, proof):
 
 make_replay = A.make_replay
 diff_context = A.diff_context
-replay = A.replay
+
+
+def replay(ctx, path):
+    if open(path).read().lstrip().startswith("SENDPROBE"):
+        sp, nsp = send_probes(ctx)
+        if sp is None:
+            print("the crate does not build:", nsp)
+            return 2
+        for f in sp:
+            print(f"ORACLE {f['prop']} {f['name']} {f['detail']}")
+        if sp:
+            print(f"VIOLATION property={ctx.prop} replay={path}")
+        return 1 if sp else 0
+    return A.replay(ctx, path)
